@@ -16,6 +16,11 @@ func (w *World) registerEnv() {
 	// per-run stubs from the harness config
 	for name, kind := range w.Opts.Stubs {
 		kind := kind
+		if kind == "real" {
+			// run the function's own body instead of the engine's model of it
+			delete(w.intr, name)
+			continue
+		}
 		w.reg(name, func(e *Exec, fn *ssa.Function, a []Value) Value {
 			switch kind {
 			case "true":
